@@ -3,9 +3,16 @@
    (2) [e2e]: one summary written by the REAL csv.SummaryMarshaler, posted to the REAL engine Mux; the model
        (SummaryRoundTrip.v) is run on the records the csv reader returns for that text, with the real caster's
        verdict per field, and must reproduce the POST status, every GET /solutions/<label> outcome (in order,
-       threading the solution pool) and every PATCH /model {Encoding} -> ParetoFrontMember outcome. *)
+       threading the solution pool) and every PATCH /model {Encoding} -> ParetoFrontMember outcome.
+       The ACTIONS are compared too (SummaryActions.v over C09's BooleanArchive / ModelCompressor model): the active
+       flags of every solution served by label must be those the model decodes from the row's text for the
+       scenario's action count (any count: 63, 64, 65, 128, ...), the flags and the Encoding attribute of the
+       engine's model after every PATCH must be the model's, and membership is decided on the text the MODEL
+       re-encodes to (the implementation's own recoding is only compared with it). *)
 From Coq Require Import List String Ascii QArith Qabs ZArith Bool Arith.
-From Crem Require Import Base.Res Base.Fl CsvTable GoCast CsvTableCorr SummaryRoundTrip.
+From Crem Require Import Base.Res Base.Fl CsvTable GoCast CsvTableCorr SummaryRoundTrip SummaryActions.
+From Crem Require ActionCodec.
+From Coq Require Import NArith.
 Import ListNotations.
 Local Open Scope nat_scope.
 
@@ -35,15 +42,23 @@ Inductive gobs := GNotFound | GAsIs | GDecoded (e s : string) | GPanic | GOther.
 Inductive pobs := P400 | PTrue | PFalse | PNone | PPanic | POther.
 Inductive postobs := Post200 | Post400 | PostPanic | PostOther.
 
+(* one PATCH /model {Encoding: enc}: the implementation's own Encoding(Decode enc) on a clone (None = Decode error),
+   the ParetoFrontMember observation, and after a 200 the flags (bit k = action k) and the Encoding attribute that
+   GET /model then shows (None = not observed / not expressible in the scenario's action list) *)
+Record patch := mkP {
+  p_enc : string; p_recode : option string; p_obs : pobs; p_act : option N; p_menc : option string }.
+
 Record e2e := mkE {
+  e_nact : nat;                                   (* management actions of the scenario's model *)
+  e_mstart : option N;                            (* flags of the engine's model before the first PATCH of [e_patches] *)
   e_nw : nat;                                     (* words of the scenario's action archive (ArchiveLen) *)
   e_pre : list (list (list fld) * list string);   (* history: summaries posted before, with the labels fetched after each *)
   e_recs : option (list (list fld));
   e_text : string;
   e_asis : list (string * num);
   e_post : postobs;
-  e_gets : list (string * gobs);
-  e_patches : list (string * option string * pobs) }.
+  e_gets : list (string * gobs * option N);       (* label, outcome, active flags of the served solution *)
+  e_patches : list patch }.
 
 Definition srow_of (r : list string) : srow :=
   match r with
@@ -61,19 +76,32 @@ Definition gobs_eqb (f : found) (o : gobs) : bool :=
   | _, _ => false
   end.
 
-Fixpoint run_gets (fmt : num -> string) (st : state) (gs : list (string * gobs)) : bool :=
-  match gs with
-  | [] => true
-  | (label, o) :: gs' =>
-    match get_solution fmt st label, o with
-    | Panic, GPanic => run_gets fmt st gs'        (* the real handler recovered by the harness: state unchanged *)
-    | Ok (f, st'), _ => gobs_eqb f o && run_gets fmt st' gs'
-    | _, _ => false
+Definition opt_flags_eqb (n : nat) (m : list bool) (o : option N) : bool :=
+  match o with Some v => flags_eqb m (flags_of_N n v) && (v <? 2 ^ N.of_nat n)%N | None => false end.
+
+(* the actions of the solution served under a label: the as-is model's (none active) / the pooled model's, which
+   SolutionPool.AddSolution decodes from the row's text into a clone of the as-is model *)
+Definition served_flags_ok (n : nat) (f : found) (act : option N) : bool :=
+  match f with
+  | NotFound => match act with None => true | Some _ => false end
+  | AsIsSolution => opt_flags_eqb n (repeat false n) act
+  | Decoded e _ =>
+    match pool_solution_flags (repeat false n) e with
+    | Ok m => opt_flags_eqb n m act
+    | Panic => false
     end
   end.
 
-Definition recode_of (ps : list (string * option string * pobs)) : string -> option string :=
-  fun e => match find (fun p => String.eqb (fst (fst p)) e) ps with Some p => snd (fst p) | None => None end.
+Fixpoint run_gets (n : nat) (fmt : num -> string) (st : state) (gs : list (string * gobs * option N)) : bool :=
+  match gs with
+  | [] => true
+  | (label, o, act) :: gs' =>
+    match get_solution fmt st label, o with
+    | Panic, GPanic => run_gets n fmt st gs'      (* the real handler recovered by the harness: state unchanged *)
+    | Ok (f, st'), _ => gobs_eqb f o && served_flags_ok n f act && run_gets n fmt st' gs'
+    | _, _ => false
+    end
+  end.
 
 Definition pobs_eqb (r : res (option (option bool))) (o : pobs) : bool :=
   match r, o with
@@ -83,6 +111,33 @@ Definition pobs_eqb (r : res (option (option bool))) (o : pobs) : bool :=
   | Ok (Some (Some true)), PTrue => true
   | Ok (Some (Some false)), PFalse => true
   | _, _ => false
+  end.
+
+Definition opt_string_eqb (a b : option string) : bool :=
+  match a, b with
+  | Some x, Some y => String.eqb x y
+  | None, None => true
+  | _, _ => false
+  end.
+
+(* the PATCHes in order, threading the flags of the engine's model *)
+Fixpoint run_patches (n : nat) (fmt : num -> string) (st : state) (cur : list bool) (ps : list patch) : bool :=
+  match ps with
+  | [] => true
+  | p :: ps' =>
+    match patch_encoding fmt st cur (p_enc p) with
+    | Panic => match p_obs p with PPanic => run_patches n fmt st cur ps' | _ => false end
+    | Ok None =>                                                       (* 400: the model stays as it was *)
+      match p_obs p with P400 => true | _ => false end
+      && opt_string_eqb (p_recode p) None
+      && run_patches n fmt st cur ps'
+    | Ok (Some (m, enc, member)) =>
+      pobs_eqb (Ok (Some member)) (p_obs p)
+      && opt_string_eqb (p_recode p) (Some enc)                        (* the implementation's own recoding agrees *)
+      && opt_flags_eqb n m (p_act p)
+      && opt_string_eqb (p_menc p) (Some enc)
+      && run_patches n fmt st m ps'
+    end
   end.
 
 Fixpoint run_labels (fmt : num -> string) (st : state) (ls : list string) : state :=
@@ -122,9 +177,14 @@ Definition check_e2e (c : e2e) : bool :=
        | Panic, PostPanic => true
        | Ok (S400, _), Post400 => true
        | Ok (S200, st), Post200 =>
-         run_gets fmt st (e_gets c)
-         && forallb (fun p => pobs_eqb (pareto_member fmt (recode_of (e_patches c)) st (fst (fst p))) (snd p))
-                    (e_patches c)
+         run_gets (e_nact c) fmt st (e_gets c)
+         && Nat.eqb (e_nw c) (BoolArchive.nwords (e_nact c))
+         && match e_patches c, e_mstart c with
+            | [], _ => true
+            | _, Some v => (v <? 2 ^ N.of_nat (e_nact c))%N
+                           && run_patches (e_nact c) fmt st (flags_of_N (e_nact c) v) (e_patches c)
+            | _, None => false
+            end
        | _, _ => false
        end
   end.
@@ -135,3 +195,21 @@ Fixpoint emismatches_from (i : nat) (cs : list e2e) : list nat :=
   | c :: cs' => if check_e2e c then emismatches_from (S i) cs' else i :: emismatches_from (S i) cs'
   end.
 Definition emismatches := emismatches_from 0.
+
+(* ---- (3) the explorer side of an Actions cell: the text the real solution builder / ModelCompressor wrote for a
+        model with [w_n] actions whose activation flags are [w_set] (bit k = action k) ---- *)
+Record wcase := mkW { w_n : nat; w_set : N; w_text : string }.
+
+Definition check_wcase (c : wcase) : bool :=
+  (w_set c <? 2 ^ N.of_nat (w_n c))%N
+  && match ActionCodec.encoding_of (flags_of_N (w_n c) (w_set c)) with
+     | Ok s => String.eqb s (w_text c)
+     | Panic => false
+     end.
+
+Fixpoint wmismatches_from (i : nat) (cs : list wcase) : list nat :=
+  match cs with
+  | [] => []
+  | c :: cs' => if check_wcase c then wmismatches_from (S i) cs' else i :: wmismatches_from (S i) cs'
+  end.
+Definition wmismatches := wmismatches_from 0.
